@@ -12,8 +12,9 @@ import ast
 from typing import List, Optional
 
 from .. import astutil as A
+from .. import sym as S
 from ..core import AnalysisError, Collector
-from .common import FnCtx, fnctx, has_guard
+from .common import FnCtx, SCtx, fnctx, sctx, has_guard
 
 
 def _not_in(test, var: str, coll: str) -> bool:
@@ -46,92 +47,106 @@ def _neighbours_of(expr, graph: str) -> Optional[str]:
 
 
 def check_toposort(col: Collector, rule: str):
+    """toposort(graph, start): every start vertex not yet visited is handed to the DFS worker with fresh, shared
+    output/visited containers; the output is returned in order."""
     repo = col.repo
-    top = fnctx(repo, None, "toposort", "sorting")
-    m = top.module
-    P = A.params(top.fn)
-    if len(P) < 2:
-        raise AnalysisError("sorting.toposort: expected (graph, start) parameters")
-    graph_p, start_p = P[0], P[1]
+    top = sctx(repo, None, "toposort", "sorting", keep=set(repo.module("sorting").functions) - {"toposort"})
+    m = top.cx.module
     cfg = top.cfg
-
-    # --- the worker call(s)
-    worker_calls = []
-    for nid in cfg.find(lambda x: isinstance(x, ast.Call) and isinstance(x.func, ast.Name) and x.func.id in m.functions
-                        and x.func.id != "reduce"):
-        for c in top.calls_at(nid, lambda c: isinstance(c.func, ast.Name) and c.func.id in m.functions):
-            worker_calls.append((nid, c))
-    if not worker_calls:
-        raise AnalysisError("sorting.toposort: no call to a module-level DFS worker found (unrecognised shape)")
-    worker_name = worker_calls[0][1].func.id
-    for nid, c in worker_calls:
-        if len(c.args) != 4:
-            raise AnalysisError("sorting.toposort: worker call does not have (graph, vertex, out, visited) arguments")
-    nid, c = worker_calls[0]
-    g_a, v_a, out_a, vis_a = [A.dotted(a) for a in c.args]
-    col.add(rule, "sorting.toposort#worker-graph-arg", g_a == graph_p, top.loc(nid),
-            "the DFS worker traverses the graph passed to toposort", f"worker called with graph={g_a}, parameter is {graph_p}")
-    # outer loop: for vertex in start, guarded by `vertex not in visited`
-    loop_ok = False
-    for g in cfg.guards(nid):
-        if g.kind == "T" and isinstance(g.ast, ast.For) and A.dotted(g.ast.iter) == start_p and A.target_names(g.ast.target) == [v_a]:
-            loop_ok = True
-    col.add(rule, "sorting.toposort#iterates-start", loop_ok, top.loc(nid),
-            "every vertex of `start` is offered to the DFS worker (one loop over the start collection)",
-            f"worker call guards: {[A.src(g.ast)[:40] for g in cfg.guards(nid)]}")
-    col.add(rule, "sorting.toposort#start-vertex-unvisited-guard", guarded_unvisited(top, nid, v_a, vis_a), top.loc(nid),
-            "a start vertex already reached from an earlier start vertex is not traversed (and emitted) again",
-            f"guards of the worker call: {[A.src(g.ast)[:40] for g in cfg.guards(nid) if not isinstance(g.ast, ast.For)]}")
-    # fresh containers
-    for nm, what, ctor in ((out_a, "output", ("deque", "list", "collections.deque")), (vis_a, "visited", ("set",))):
-        ds = top.defs(nm, nid)
-        fresh = len([d for d in ds if d.kind == "assign"]) == 1 and all(
-            d.kind != "assign" or (isinstance(d.value, ast.Call) and A.call_name(d.value) in ctor and not d.value.args)
-            or (isinstance(d.value, (ast.List,)) and not d.value.elts and what == "output") for d in ds)
-        col.add(rule, f"sorting.toposort#fresh-{what}", fresh, top.loc(nid),
-                f"the {what} container is created empty inside toposort (no state shared between calls)",
-                f"definitions reaching the worker call: {ds}")
-    out_ctor = None
-    for d in top.defs(out_a, nid):
-        if d.kind == "assign":
-            out_ctor = "deque" if isinstance(d.value, ast.Call) else "list"
-    # default start = all vertices, only when start is None
-    for tn in [n for n in cfg.nodes.values() if n.kind == "test"]:
-        if start_p in A.names_loaded(tn.ast):
-            p = A.compare_parts(tn.ast)
-            ok = bool(p and isinstance(p[1], (ast.Is,)) and A.dotted(p[0]) == start_p and A.is_none(p[2]))
-            col.add(rule, "sorting.toposort#default-start-only-when-None", ok, top.loc(tn.id),
-                    "`start` is replaced by all vertices only when it is None (an empty start set means: nothing to do)",
-                    f"test: {A.src(tn.ast)}")
-    # return value: order preserving
-    rets = [n for n in cfg.nodes.values() if n.kind == "stmt" and isinstance(n.ast, ast.Return)]
+    params = [p for p in top.sym.params.values() if p[:1] == ("param",)]
+    if len(params) < 2:
+        raise AnalysisError("sorting.toposort: expected (graph, start) parameters")
+    graph_p, start_p = top.P(0), top.P(1)
+    workers = [(ev, ev.term) for ev in top.events if ev.kind == "call" and ev.term[1][:1] == ("glob",)
+               and ev.term[1][1] in m.functions and ev.term[1][1] not in ("reduce", "toposort") and len(ev.term[2]) == 4]
+    if not workers:
+        raise AnalysisError("sorting.toposort: no call to a module-level DFS worker with (graph, vertex, out, visited) found "
+                            "(unrecognised shape) -- cannot decide")
+    worker_name = workers[0][1][1][1]
     ret_mode = None
-    for r in rets:
-        v = top.resolve(r.ast.value, r.id)
-        mode = None
-        if isinstance(v, ast.Name) and v.id == out_a:
-            mode = "same"
-        elif isinstance(v, ast.Call) and A.call_name(v) in ("list", "tuple") and len(v.args) == 1 and A.dotted(v.args[0]) == out_a:
-            mode = "same"
-        elif isinstance(v, ast.Call) and A.call_name(v) in ("list", "tuple") and len(v.args) == 1 and isinstance(v.args[0], ast.Call) \
-                and A.call_name(v.args[0]) == "reversed" and A.dotted(v.args[0].args[0]) == out_a:
-            mode = "reversed"
-        elif isinstance(v, ast.Subscript) and A.dotted(v.value) == out_a and A.src(v.slice) == "::-1":
-            mode = "reversed"
-        col.add(rule, "sorting.toposort#order-preserving-return", mode is not None, top.loc(r.id),
-                "toposort returns the worker's output sequence in order (or reversed exactly once)",
-                f"returns {A.src(r.ast.value)}")
-        ret_mode = ret_mode or mode
-    if not rets:
-        raise AnalysisError("sorting.toposort: no return statement")
-
-    check_worker(col, rule, worker_name, ret_mode or "same", out_ctor)
+    out_kind = None
+    for ev, t in workers:
+        g_a, v_a, out_a, vis_a = t[2]
+        nid = ev.nid
+        col.add(rule, "sorting.toposort#worker-graph-arg", g_a == graph_p, top.loc(ev),
+                "the DFS worker traverses the graph passed to toposort", f"worker called with graph={S.show(g_a)}")
+        starts = S.alts(v_a)
+        loop_ok = all(a[:1] == ("elem",) and all(x == start_p or S.is_call_of(x, ("glob", "reduce")) or x[:1] in (("call",), ("acc",))
+                                                   for x in S.alts(a[1])) and start_p in S.alts(a[1]) for a in starts)
+        col.add(rule, "sorting.toposort#iterates-start", loop_ok, top.loc(ev),
+                "every vertex of `start` is offered to the DFS worker (one loop over the start collection)",
+                f"vertex handed to the worker: {S.show(v_a)}")
+        vis_name = _container_name(ev.node.args[3])
+        unv = any(S.match(c, ("cmp", "not in", v_a, S.ANY)) is not None and _cond_on(top, nid, vis_name) for c in top.conds(nid))
+        col.add(rule, "sorting.toposort#start-vertex-unvisited-guard", unv, top.loc(ev),
+                "a start vertex already reached from an earlier start vertex is not traversed (and emitted) again",
+                f"conditions of the worker call: {[S.show(c) for c in top.conds(nid)]}")
+        for term, what, kinds in ((out_a, "output", ("deque", "list")), (vis_a, "visited", ("set",))):
+            fresh = term[:1] == ("acc",) and term[1] in kinds and all(c[0] not in ("one", "many", "kv") for c in term[2])
+            col.add(rule, f"sorting.toposort#fresh-{what}", fresh, top.loc(ev),
+                    f"the {what} container is created empty inside toposort (no state shared between calls)", S.show(term))
+        out_kind = out_a[1] if out_a[:1] == ("acc",) else None
+        out_name = _container_name(ev.node.args[2])
+        # default start = all vertices, only when start is None
+        sname = start_p[2]
+        for n2 in list(cfg.nodes):
+            for d in top.cx.rd.defs.get(n2, []):
+                if d.name == sname and d.kind == "assign":
+                    col.add(rule, "sorting.toposort#default-start-only-when-None",
+                            top.under(n2, ("cmp", "is", start_p, ("const", "None"))), top.loc(n2),
+                            "`start` is replaced by all vertices only when it is None (an empty start set means: nothing to do)",
+                            f"conditions: {[S.show(c) for c in top.conds(n2)]}")
+        rets = top.of_kind("return")
+        if not rets:
+            raise AnalysisError("sorting.toposort: no return statement")
+        for r in rets:
+            mode = _return_mode(r.node.value, out_name, top, r.nid)
+            col.add(rule, "sorting.toposort#order-preserving-return", mode is not None, top.loc(r),
+                    "toposort returns the worker's output sequence in order (or reversed exactly once)",
+                    f"returns {A.src(r.node.value)}")
+            ret_mode = ret_mode or mode
+        break
+    check_worker(col, rule, worker_name, ret_mode or "same", out_kind)
     return worker_name
+
+
+def _container_name(node) -> Optional[str]:
+    return node.id if isinstance(node, ast.Name) else None
+
+
+def _cond_on(s: SCtx, nid: int, name: Optional[str]) -> bool:
+    """some guard of nid mentions the local container `name` (the visited set)"""
+    if name is None:
+        return False
+    for g in s.cfg.guards(nid):
+        if g.ast is not None and not isinstance(g.ast, (ast.For, ast.AsyncFor)) and name in A.names_loaded(g.ast):
+            return True
+    return False
+
+
+def _return_mode(v, out_name, s: SCtx, nid):
+    if isinstance(v, ast.Name) and v.id == out_name:
+        return "same"
+    if isinstance(v, ast.Name):
+        ds = [d for d in s.cx.rd.reaching(nid, v.id) if d.kind == "assign"]
+        if len(ds) == 1 and len(s.cx.rd.reaching(nid, v.id)) == 1:
+            return _return_mode(ds[0].value, out_name, s, ds[0].nid)
+        return None
+    if isinstance(v, ast.Call) and A.call_name(v) in ("list", "tuple") and len(v.args) == 1:
+        a = v.args[0]
+        if A.dotted(a) == out_name:
+            return "same"
+        if isinstance(a, ast.Call) and A.call_name(a) == "reversed" and a.args and A.dotted(a.args[0]) == out_name:
+            return "reversed"
+    if isinstance(v, ast.Subscript) and A.dotted(v.value) == out_name and A.src(v.slice) == "::-1":
+        return "reversed"
+    return None
 
 
 def check_worker(col: Collector, rule: str, worker_name: str, ret_mode: str, out_ctor):
     repo = col.repo
-    w = fnctx(repo, None, worker_name, "sorting")
+    sx = sctx(repo, None, worker_name, "sorting")     # private helpers (frame constructors ...) inlined
+    w = sx.cx
     P = A.params(w.fn)
     if len(P) != 4:
         raise AnalysisError(f"sorting.{worker_name}: expected 4 parameters (graph, source, out, visited)")
@@ -188,7 +203,7 @@ def check_worker(col: Collector, rule: str, worker_name: str, ret_mode: str, out
     if rec_calls and not whiles:
         _recursive(col, rule, w, q, rec_calls, adds, e_nid, e_var, graph_p, src_p, out_p, vis_p)
     elif whiles and not rec_calls:
-        _iterative(col, rule, w, q, whiles, adds, e_nid, e_var, graph_p, src_p, out_p, vis_p)
+        _iterative(col, rule, sx, q, whiles, adds, e_nid, e_call, graph_p, src_p, out_p, vis_p)
     else:
         raise AnalysisError(f"{q}: neither the recursive nor the explicit-stack DFS template (cannot decide)")
 
@@ -227,82 +242,114 @@ def _guarded(w, nid, var, vis):
     return guarded_unvisited(w, nid, var, vis)
 
 
-def _iterative(col, rule, w, q, whiles, adds, e_nid, e_var, graph_p, src_p, out_p, vis_p):
-    cfg = w.cfg
+def _iterative(col, rule, sx: SCtx, q, whiles, adds, e_nid, e_call, graph_p, src_p, out_p, vis_p):
+    """Explicit stack of frames (vertex, iterator over its successors).
+
+    Formulated on symbolic terms and (flag-refined) paths, not on statement shapes: `for ... else`, a `descended`
+    flag, `continue`-style guards, temporaries and helper functions for the frame all give the same answers.
+    """
+    w = sx.cx
+    cfg = sx.cfg
+    R = cfg.refined
+    sym = sx.sym
     col.info["dfs_template"] = "explicit-stack"
+    graph, source, vis = sym.params[graph_p], sym.params[src_p], sym.params[vis_p]
     wh = whiles[0]
-    todo = A.dotted(wh.ast) if isinstance(wh.ast, ast.Name) else None
-    if todo is None:
-        raise AnalysisError(f"{q}: loop condition is not the work-stack name (cannot decide)")
-    # pushes
-    pushes = []
-    for nid in cfg.find(lambda x: isinstance(x, ast.Call) and isinstance(x.func, ast.Attribute)
-                        and A.dotted(x.func.value) == todo and x.func.attr == "append"):
-        for c in w.calls_at(nid, lambda c: isinstance(c.func, ast.Attribute) and A.dotted(c.func.value) == todo and c.func.attr == "append"):
-            pushes.append((nid, c))
-    # frame read: vertex, neighbours = todo[-1]
-    frame = None
+    names = [x.id for x in A.walk(wh.ast) if isinstance(x, ast.Name)]
+    if len(names) != 1:
+        raise AnalysisError(f"{q}: loop condition is not a test of the work stack (cannot decide)")
+    todo = names[0]
+
+    def succ_of(v):
+        return (S.mcall(graph, "get", v, S.ANY), S.mcall(graph, "get", v), ("sub", graph, v))
+
+    def is_frame(t, v):
+        """t == (v, iter(<successors of v in graph>))"""
+        if not (t[:1] == ("tuple",) and len(t[1]) == 2 and t[1][0] == v):
+            return False
+        it = t[1][1]
+        return S.is_call_of(it, ("glob", "iter")) and len(it[2]) == 1 and any(S.match(it[2][0], p) is not None for p in succ_of(v))
+
+    # ---- the loop over the successors of the top frame
+    top_frame = ("sub", S.V("stack"), ("const", "-1"))
+    fors = []
     for n in cfg.nodes.values():
-        if n.kind == "stmt" and isinstance(n.ast, ast.Assign) and isinstance(n.ast.value, ast.Subscript) \
-                and A.dotted(n.ast.value.value) == todo and A.src(n.ast.value.slice) == "-1":
-            names = A.target_names(n.ast.targets[0])
-            if len(names) == 2:
-                frame = (n.id, names[0], names[1])
-    if frame is None:
-        if _two_phase(col, rule, w, q, todo, pushes, adds, e_nid, e_var, graph_p, src_p, vis_p):
-            return
-        raise AnalysisError(f"{q}: no `vertex, successors = stack[-1]` frame read (cannot decide)")
-    init = [d for d in w.rd.reaching(wh.id, todo) if d.kind == "assign"]
-    init_ok = False
-    if len(init) == 1 and isinstance(init[0].value, ast.List) and len(init[0].value.elts) == 1 \
-            and isinstance(init[0].value.elts[0], ast.Tuple) and len(init[0].value.elts[0].elts) == 2:
-        v0, it0 = init[0].value.elts[0].elts
-        init_ok = A.dotted(v0) == src_p and _neighbours_of(it0, graph_p) == src_p and \
-            isinstance(it0, ast.Call) and A.call_name(it0) == "iter"
-    col.add(rule, f"{q}#initial-frame", init_ok, w.loc(init[0].nid) if init else w.loc(w.fn),
-            "the work stack starts with one frame (source, iterator over the source's successors)",
-            A.src(init[0].value) if init else "no unique initialisation")
-    mark0 = [nid for nid, v in adds if v == src_p and cfg.dominates(nid, wh.id)]
-    col.add(rule, f"{q}#mark-before-descent", bool(mark0), w.loc(mark0[0]) if mark0 else w.loc(w.fn),
-            "the source vertex is marked visited before the traversal loop starts", f"visited.add sites: {adds}")
-    f_nid, vtx, nbrs = frame
-    fors = [n for n in cfg.nodes.values() if n.kind == "for" and A.dotted(n.ast.iter) == nbrs]
+        if n.kind == "for":
+            it = sym.of(n.ast.iter, n.id)
+            if S.match(it, ("item", top_frame, 1)) is not None:
+                fors.append((n, it))
     if len(fors) != 1:
-        raise AnalysisError(f"{q}: expected one loop over the frame's successor iterator (cannot decide)")
-    fr = fors[0]
-    nb = A.target_names(fr.ast.target)
-    for nid, c in pushes:
-        t = c.args[0] if c.args else None
-        shape = isinstance(t, ast.Tuple) and len(t.elts) == 2
-        nv = A.dotted(t.elts[0]) if shape else None
-        it_ok = shape and isinstance(t.elts[1], ast.Call) and A.call_name(t.elts[1]) == "iter" and _neighbours_of(t.elts[1], graph_p) == nv
-        col.add(rule, f"{q}#pushed-frame", bool(it_ok) and [nv] == nb, w.loc(nid),
-                "a pushed frame pairs the successor with a fresh iterator over *its* successors in the given graph", A.src(c))
-        col.add(rule, f"{q}#descend-only-unvisited", bool(nv) and guarded_unvisited(w, nid, nv, vis_p), w.loc(nid),
-                "descent into a successor happens only if it is not yet visited",
-                f"guards: {[A.src(g.ast)[:40] for g in cfg.guards(nid) if not isinstance(g.ast, ast.For)]}")
-        marked = any(v == nv and cfg.dominates(a, nid) and fr.id in cfg.dominators(a) for a, v in adds)
-        col.add(rule, f"{q}#mark-on-push", marked, w.loc(nid),
-                "a successor is marked visited when (before) its frame is pushed", f"visited.add sites: {adds}")
-        # after the push the scan of the current frame is suspended: next node must leave the for loop
-        succ = list(cfg.g.successors(nid))
-        brk = any(cfg.nodes[s].kind == "stmt" and isinstance(cfg.nodes[s].ast, ast.Break) for s in succ)
-        col.add(rule, f"{q}#suspend-after-push", brk, w.loc(nid),
-                "after pushing a frame the scan of the current frame is suspended (depth first), to be resumed from the same iterator",
-                f"successor statements: {[A.src(cfg.nodes[s].ast)[:30] for s in succ if cfg.nodes[s].ast is not None]}")
+        if _two_phase(col, rule, w, q, todo, _pushes(w, todo), adds, e_nid, A.dotted(e_call.args[-1]) if e_call.args else None,
+                      graph_p, src_p, vis_p):
+            return
+        raise AnalysisError(f"{q}: expected one loop over the successor iterator of the top frame `stack[-1]` (cannot decide)")
+    fr, it_term = fors[0]
+    nb = ("elem", it_term)
+    vtx_term = ("item", it_term[1], 0)
+    exhausted = [n.id for n in cfg.nodes.values() if n.kind == "F" and n.of == fr.id]
+    # ---- initial frame and mark
+    init_defs = [d for d in w.rd.reaching(wh.id, todo) if d.kind == "assign"]
+    init_ok = False
+    if len(init_defs) == 1:
+        t0 = sym.of(init_defs[0].value, init_defs[0].nid)
+        init_ok = t0[:1] == ("list",) and len(t0[1]) == 1 and is_frame(t0[1][0], source)
+    col.add(rule, f"{q}#initial-frame", init_ok, w.loc(init_defs[0].nid) if init_defs else w.loc(w.fn),
+            "the work stack starts with one frame (source, iterator over the source's successors)",
+            A.src(init_defs[0].value) if init_defs else "no unique initialisation")
+    add_evs = [(ev, m) for ev, m in sx.calls_some(S.mcall(vis, "add", S.V("x")))]
+    mark0 = [ev.nid for ev, m in add_evs if m["x"] == source and cfg.dominates(ev.nid, wh.id)]
+    col.add(rule, f"{q}#mark-before-descent", bool(mark0), w.loc(mark0[0]) if mark0 else w.loc(w.fn),
+            "the source vertex is marked visited before the traversal loop starts",
+            f"visited.add sites: {[(sx.loc(e), S.show(m['x'])) for e, m in add_evs]}")
+    # ---- pushes
+    pushes = _pushes(w, todo)
     if not pushes:
         col.add(rule, f"{q}#pushed-frame", False, w.loc(w.fn), "successors are pushed on the work stack", "no push found")
-    # emission in the exhausted branch of the for, together with the pop, of the frame's vertex
-    exhausted = [g for g in cfg.guards(e_nid) if g.kind == "F" and g.of == fr.id]
-    pops = cfg.find(lambda x: isinstance(x, ast.Call) and isinstance(x.func, ast.Attribute) and A.dotted(x.func.value) == todo
-                    and x.func.attr == "pop")
-    pop_ok = len(pops) == 1 and any(g.kind == "F" and g.of == fr.id for g in cfg.guards(pops[0])) and \
-        not w.calls_at(pops[0], lambda c: isinstance(c.func, ast.Attribute) and c.func.attr == "pop" and c.args)
-    col.add(rule, f"{q}#post-order-emission", bool(exhausted) and e_var == vtx and pop_ok, w.loc(e_nid),
+    unvisited = ("cmp", "not in", nb, vis)
+    for nid, c in pushes:
+        t = sym.of(c.args[0], nid) if c.args else ("opaque", "?")
+        col.add(rule, f"{q}#pushed-frame", is_frame(t, nb), w.loc(nid),
+                "a pushed frame pairs the successor with a fresh iterator over *its* successors in the given graph", S.show(t))
+        col.add(rule, f"{q}#descend-only-unvisited", sx.under(nid, unvisited), w.loc(nid),
+                "descent into a successor happens only if it is not yet visited",
+                f"conditions: {[S.show(x) for x in sx.conds(nid)]}")
+        marks = [ev.nid for ev, m in add_evs if m["x"] == nb]
+        br = [b for b in sx.branches(unvisited) if fr.id in cfg.dominators(b)]
+        marked = bool(marks) and bool(br) and all(R.must_pass(b, wh.id, marks) or not R.path_avoiding(b, nid, []) for b in br) \
+            and all(R.must_pass(b, wh.id, marks) for b in br if R.path_avoiding(b, nid, []))
+        col.add(rule, f"{q}#mark-on-push", marked, w.loc(nid),
+                "a successor is marked visited when its frame is pushed (before the traversal loop resumes)",
+                f"visited.add sites: {[(sx.loc(e), S.show(m['x'])) for e, m in add_evs]}")
+        susp = not R.path_avoiding(nid, fr.id, [wh.id])
+        col.add(rule, f"{q}#suspend-after-push", susp, w.loc(nid),
+                "after pushing a frame the scan of the current frame is suspended (depth first): the successor loop is not "
+                "continued before the traversal loop re-reads the top frame",
+                "a path from the push back to the successor loop does not pass the traversal loop's test" if not susp else "")
+    # ---- emission: of the frame's vertex, exactly when its iterator is exhausted, together with the pop
+    e_term = sym.of(e_call.args[-1], e_nid) if e_call.args else ("opaque", "?")
+    pops = [ev.nid for ev, m in sx.calls_some(("call", ("attr", S.ANY, "pop"), S.V("a"), ())) if
+            isinstance(ev.node.func, ast.Attribute) and A.dotted(ev.node.func.value) == todo and not ev.node.args]
+    frame_reads = [n.id for n in cfg.nodes.values() if n.kind == "stmt" and isinstance(n.ast, ast.Assign)
+                   and S.match(sym.of(n.ast.value, n.id), top_frame) is not None]
+    start = frame_reads[0] if frame_reads else [n.id for n in cfg.nodes.values() if n.kind == "T" and n.of == wh.id][0]
+    only_when_done = bool(exhausted) and R.must_pass(start, e_nid, exhausted) and all(R.must_pass(start, p_, exhausted) for p_ in pops)
+    paired = bool(pops) and all(R.must_pass(x, wh.id, [e_nid]) and R.must_pass(x, wh.id, pops) for x in exhausted)
+    inner = [g for g in cfg.guards(e_nid) if g.kind == "T" and isinstance(g.ast, (ast.For, ast.AsyncFor))]
+    col.add(rule, f"{q}#post-order-emission", only_when_done and paired and e_term == vtx_term and not inner, w.loc(e_nid),
             "a vertex is emitted exactly when its successor iterator is exhausted, and its frame is popped then (and only then)",
-            f"emits `{e_var}` (frame vertex `{vtx}`); in exhausted-branch: {bool(exhausted)}; pops: {len(pops)}")
-    col.add(rule, f"{q}#frame-read-each-iteration", cfg.dominates(f_nid, fr.id) and wh.id in cfg.dominators(f_nid), w.loc(f_nid),
+            f"emits {S.show(e_term)}; emission only after exhaustion: {only_when_done}; pop and emission paired: {paired}; pops: {len(pops)}")
+    reread = all(cfg.dominates(f, fr.id) for f in frame_reads) if frame_reads else True
+    col.add(rule, f"{q}#frame-read-each-iteration", reread and wh.id in cfg.dominators(fr.id), w.loc(fr.id),
             "each iteration of the traversal loop resumes the top frame of the work stack", "")
+
+
+def _pushes(w, todo):
+    out = []
+    for nid in w.cfg.find(lambda x: isinstance(x, ast.Call) and isinstance(x.func, ast.Attribute)
+                          and A.dotted(x.func.value) == todo and x.func.attr == "append"):
+        for c in w.calls_at(nid, lambda c: isinstance(c.func, ast.Attribute) and A.dotted(c.func.value) == todo and c.func.attr == "append"):
+            out.append((nid, c))
+    return out
 
 
 def _two_phase(col, rule, w, q, todo, pushes, adds, e_nid, e_var, graph_p, src_p, vis_p) -> bool:
